@@ -15,7 +15,7 @@ Inductive rich :=
 
 Record rich_tables := mkTables {
   tb_ts : list (Z * str);                  (* instant -> WrapTimestamp(t.UTC()).String() *)
-  tb_sp : list (Z * str);                  (* nanoseconds -> WrapTimespan(d).SerializationString() *)
+  tb_sp : list (Z * str);                  (* nanoseconds -> WrapTimespan(d).SerializationString(): compared with sp_text *)
   tb_go : list (nat * (str * str * str))   (* id -> reflect.Type.String(), PkgPath(), %p *)
 }.
 
@@ -27,14 +27,13 @@ Fixpoint nlookup (k : nat) (l : list (nat * (str * str * str))) : str * str * st
 (* the text of a time that is not in UTC / carries a reading is not in the table: a model that forgets UTC() shows *)
 Definition render_ts (tb : rich_tables) (g : gotime) : str :=
   if (t_zone g =? 0) && is_nil (t_mono g) then zlookup (t_inst g) (tb_ts tb) else [].
-Definition render_sp (tb : rich_tables) (d : Z) : str := zlookup d (tb_sp tb).
 Definition go_of (tb : rich_tables) : gooracle :=
   mkGo (fun i => fst (fst (nlookup i (tb_go tb)))) (fun i => snd (fst (nlookup i (tb_go tb)))) (fun i => snd (nlookup i (tb_go tb))).
 
 Definition rich_key (tb : rich_tables) (x : rich) : option (list N) :=
   match x with
   | RTs t => Some (ts_key (render_ts tb) t)
-  | RSp t => Some (sp_key (render_sp tb) t)
+  | RSp t => Some (sp_key sp_text t)
   | RRt (Some t) => Some (rt_key (go_of tb) t)
   | RRt None => None
   | RGo i => Some (rt_key (go_of tb) (new_go_runtime_type (go_of tb) i))
@@ -87,3 +86,16 @@ Definition rich_ok (tb : rich_tables) (pool : list rich) (c : rich_case) : bool 
 
 Definition c07_rich_mismatches (tb : rich_tables) (pool : list rich) (cases : list rich_case) : list N :=
   failing (rich_ok tb pool) cases.
+
+(* the modelled text of a duration against the implementation's SerializationString, for every duration of the pool
+   (the two extremes included, which no key shows) *)
+Definition c07_rich_text_mismatches (tb : rich_tables) : list N :=
+  failing (fun ds : Z * str => str_eqb (sp_text (fst ds)) (snd ds)) (tb_sp tb).
+
+(* what C07_runtime_type_key_iff_eq assumes of a reflect.Type, checked on the table: PkgPath() and %p hold no byte <= 4,
+   %p holds no '#', no two entries (different type descriptors) have one address *)
+Definition go_entry_ok (tb : rich_tables) (e : nat * (str * str * str)) : bool :=
+  let '(i, (_, pkg, ptr)) := e in
+  forallb (fun b => 4 <? b)%N pkg && forallb (fun b => 4 <? b)%N ptr && negb (existsb (N.eqb 35) ptr) &&
+  forallb (fun e' : nat * (str * str * str) => Nat.eqb i (fst e') || negb (str_eqb ptr (snd (snd e')))) (tb_go tb).
+Definition c07_rich_go_mismatches (tb : rich_tables) : list N := failing (go_entry_ok tb) (tb_go tb).
